@@ -170,7 +170,7 @@ CHECKS = {
             {'engine': 'streamsim', 'config': 'asan32', 'runs': [100000, 2000000]},
             {'engine': 'streamsim', 'config': 'plain', 'runs': [600000, 60000000]},
         ],
-        'rule': ('a case is one simulated stream for one of 18 Start/Step/Get bundles: message of 0..~4 internal blocks, cut into 1..7 '
+        'rule': ('a case is one simulated stream for one of 21 Start/Step/Get bundles: message of 0..~4 internal blocks, cut into 1..7 '
                  'fragments by the simulated source (boundaries biased to block-1/block/block+1/0, empty fragments where the header allows), '
                  'with mid-stream Get/Verify probes and state migrations (copy to a fresh exact-size block, old block scribbled and released) '
                  'interleaved; distinct = distinct (bundle, sequence of (offset mod block, length mod block, blocks), probe kinds, migrations) signatures; '
@@ -251,7 +251,7 @@ MANIFEST_TEXT = {
         'technique': 'deterministic simulation: seeded scheduler over fibers + TSan happens-before + sequential-replay linearizability',
     },
     'C07': {
-        'text': ('Rider check, partial by construction: fault-free simulated calls of ~80 high-level functions and 18 streaming bundles on the simulated heap with '
+        'text': ('Rider check, partial by construction: fault-free simulated calls of ~95 high-level functions, 35 arithmetic-layer entry points with caller-owned stacks and 21 streaming bundles on the simulated heap with '
                  'exact-size buffers, states and blobs (H-blob), ASan + memory-related UBSan, library ASSERTs on, in the 64-bit and 32-bit word '
                  'configuration, each call repeated under different seeded heap garbage with identical results required.'),
         'design_ref': 'DESIGN.md §3 C07',
@@ -275,8 +275,8 @@ MANIFEST_TEXT = {
         'technique': 'deterministic simulation: free-time snapshots + two-secret differential with fault-reached exits',
     },
     'C10': {
-        'text': ('Seeded search over stream histories: the simulator plays the data source and the hosting process of 18 Start/Step/Get bundles '
-                 '(belt ECB/CBC/CFB/CTR/BDE/SDE/MAC/Hash/HMAC/DWP/CHE/KRP, bash hash and automaton, brng CTR/HMAC, botp HOTP/TOTP), fragments the data, '
+        'text': ('Seeded search over stream histories: the simulator plays the data source and the hosting process of 21 Start/Step/Get bundles '
+                 '(belt ECB/CBC/CFB/CTR/BDE/SDE/MAC/Hash/HMAC/DWP/CHE/KRP/WBL-KWP/FMT, bash hash and automaton, brng CTR/HMAC, botp HOTP/TOTP/OCRA), fragments the data, '
                  'asks for intermediate values and relocates the state between any two calls; every output and probe is compared with the one-shot function. '
                  'Runs under ASan with exact-size states. Evidence, not proof.'),
         'design_ref': 'DESIGN.md §3 C10',
